@@ -115,6 +115,55 @@ def alias_writes(fn):
     return bad
 
 
+ACCUMULATORS = {'errors', 'id_map', 'id_list', 'identities', 'counter'}      # the per-run collections a validation call is meant to fill
+
+
+def shared_container_writes(fn):
+    """in-place mutation (mutator call, item store / delete) through a local name whose nearest preceding binding in the same statement list is an attribute or
+    item of another object (context.inherited, self.namespaces, ...): the local is an alias of state that outlives the statement, so the mutation is visible to
+    everything else that holds the object.  Allowed only for the accumulators of the run; anything else has to be copied first."""
+    bad = set()
+
+    def root(e):
+        while isinstance(e, (ast.Attribute, ast.Subscript)): e = e.value
+        return e.id if isinstance(e, ast.Name) else None
+
+    def field(e):
+        while isinstance(e, ast.Subscript): e = e.value
+        return e.attr if isinstance(e, ast.Attribute) else None
+
+    def scan(stmts, alias):
+        alias = dict(alias)
+        for s in stmts:
+            heads = [s] if not hasattr(s, 'body') else [getattr(s, 'test', None), getattr(s, 'iter', None)] + [i.context_expr for i in getattr(s, 'items', [])]
+            for h in [h for h in heads if h is not None]:
+                for n in ast.walk(h):
+                    if isinstance(n, ast.Subscript) and isinstance(getattr(n, 'ctx', None), (ast.Store, ast.Del)) and isinstance(n.value, ast.Name) and n.value.id in alias:
+                        bad.add(f'store {ast.unparse(n)} (alias of {alias[n.value.id]})')
+                    if isinstance(n, ast.Call) and isinstance(n.func, ast.Attribute) and n.func.attr in MUT and isinstance(n.func.value, ast.Name) and n.func.value.id in alias:
+                        bad.add(f'call {ast.unparse(n.func)} (alias of {alias[n.func.value.id]})')
+            if isinstance(s, (ast.Assign, ast.AnnAssign)) and s.value is not None:
+                for tg in (s.targets if isinstance(s, ast.Assign) else [s.target]):
+                    if isinstance(tg, ast.Name):
+                        v = s.value
+                        if isinstance(v, (ast.Attribute, ast.Subscript)) and root(v) is not None and field(v) not in ACCUMULATORS and field(v) is not None: alias[tg.id] = ast.unparse(v)
+                        else: alias.pop(tg.id, None)
+                    else:
+                        for x in ast.walk(tg):
+                            if isinstance(x, ast.Name) and isinstance(x.ctx, ast.Store): alias.pop(x.id, None)
+            for sub in ('body', 'orelse', 'finalbody'):
+                if hasattr(s, sub) and isinstance(getattr(s, sub), list): scan(getattr(s, sub), alias)
+            for h in getattr(s, 'handlers', []): scan(h.body, alias)
+            if hasattr(s, 'body') and not isinstance(s, (ast.FunctionDef, ast.ClassDef)):
+                # a name rebound inside a nested block: after the block it may hold either object; it stays an alias if ANY binding in the block is one and none is fresh-unconditional
+                for n in ast.walk(s):
+                    if isinstance(n, (ast.Assign, ast.AnnAssign)) and n.value is not None:
+                        for tg in (n.targets if isinstance(n, ast.Assign) else [n.target]):
+                            if isinstance(tg, ast.Name) and tg.id in alias and not isinstance(n.value, (ast.Attribute, ast.Subscript)): pass     # conservatively still an alias on the other branch
+    scan(fn.body, {})
+    return bad
+
+
 def methods():
     for f in sorted(glob.glob(os.path.join(REPO, 'xmlschema/validators/*.py'))) + [os.path.join(REPO, 'xmlschema/converters/base.py')]:
         tree = ast.parse(open(f, encoding='utf-8-sig').read())
@@ -126,7 +175,7 @@ def methods():
                 yield os.path.basename(f), f'{cls.name}.{fn.name}', fn
 
 
-t = Target('frame.validation_methods_write_only_their_frame', ['C10'], 'xmlschema/validators/elements.py', 'XsdElement.raw_decode',
+t = Target('frame.validation_methods_write_only_their_frame', ['C10', 'C07'], 'xmlschema/validators/elements.py', 'XsdElement.raw_decode',
            note='every validation-path method of validators/*.py writes, on the schema component it belongs to, at most what its stated frame allows '
                 '(xsi:type uses, per-validation identity counters, the reset of the scratch context); no other attribute / item / class-level store, '
                 'setattr, global or mutating call on self',
@@ -143,5 +192,7 @@ def _(run):
         run.vc('writes-within-frame', pre, [], z3.BoolVal(not extra), f'{fname}:{qual}' + (' extra=' + ';'.join(sorted(extra)) if extra else ''))
         extra = alias_writes(fn) - ALIAS_FRAME.get((fname, qual), set())
         run.vc('component-writes-only-on-fresh-objects', pre, [], z3.BoolVal(not extra), f'{fname}:{qual}' + (' extra=' + ';'.join(sorted(extra)) if extra else ''))
+        extra = shared_container_writes(fn)
+        run.vc('shared-containers-mutated-only-on-fresh-copies', pre, [], z3.BoolVal(not extra), f'{fname}:{qual}' + (' extra=' + ';'.join(sorted(extra)) if extra else ''))
     run.paths = n
     if n < 40: raise Exception(f'only {n} validation-path methods found: the scan is broken')
